@@ -153,8 +153,13 @@ def _delay(seed, t):
 FALSY = {"none": None, "zero": 0, "false": False, "emptystr": "", "emptylist": []}
 
 
+def pick_member(out, name):
+    """A custom output_picker: the function returns a dict keyed by its output names."""
+    return out[name]
+
+
 def make_probe(name, params, nout=1, log=None, internal_shape=None, ret_list=False, fault=None,
-               defaults=None, tag=None, hook=None, ret=None):
+               defaults=None, tag=None, hook=None, ret=None, as_dict=None):
     """Build a probe.  fault = {"raise": {term: exc_spec}, "raise_nth": [n, exc_spec],
     "delay": [seed, max_ms], "kill": {term: exitcode}}.  The function accepts keyword (and
     positional) arguments named `params`; `defaults` become signature defaults."""
@@ -211,6 +216,8 @@ def make_probe(name, params, nout=1, log=None, internal_shape=None, ret_list=Fal
                 fv = FALSY[ret]
                 fv = list(fv) if isinstance(fv, list) else fv
                 out = fv if nout == 1 else (fv, *out[1:])
+            if as_dict and nout > 1:  # returned as {output name: value}; needs PipeFunc(output_picker=pick_member)
+                out = dict(zip(as_dict, out))
         except BaseException:
             if log:
                 log_write(log, {"e": "E", "c": cid, "t": time.monotonic_ns(), "o": "raise"})
